@@ -1019,12 +1019,13 @@ fn step_node<C: HCfg>(
                 return;
             }
         }
-        if s.pauses.iter().any(|(a, l)| rel >= *a && rel < *a + *l) {
+        let paused = s.pauses.iter().any(|(a, l)| rel >= *a && rel < *a + *l);
+        if paused && !s.pause_polls {
             rec.res = R_NO_TICK;
             n.tr.calls.push(rec);
             return;
         }
-        (s.tick_every, 0, false, false, s.drain)
+        (s.tick_every, 0, paused, false, s.drain)
     } else {
         let p = &scn.peers[ni];
         (p.tick_every, p.tick_phase, p.poll_only, p.use_wait, p.drain)
